@@ -45,7 +45,7 @@ struct LaneJ {
 }
 
 #[derive(Deserialize, Clone, Debug)]
-struct StoreJ {
+pub(crate) struct StoreJ {
     u0: BTreeMap<String, String>,
     lanes: Vec<LaneJ>,
 }
@@ -64,13 +64,13 @@ pub struct Store {
 }
 
 impl Store {
-    fn lane(&self, name: &str) -> Option<&Lane> {
+    pub(crate) fn lane(&self, name: &str) -> Option<&Lane> {
         self.lanes.iter().find(|l| l.name == name)
     }
 
     /// A service holding every lane except `skip` (forks are registered as plain worldlines:
     /// their entries already carry their own ids), in which `skip` is registered and empty.
-    fn service_without(&self, skip: &str) -> Result<ProvenanceService, String> {
+    pub(crate) fn service_without(&self, skip: &str) -> Result<ProvenanceService, String> {
         let mut svc = ProvenanceService::new();
         for l in &self.lanes {
             svc.register_worldline(l.id, &self.u0).map_err(|e| format!("register {}: {e:?}", l.name))?;
@@ -87,7 +87,7 @@ impl Store {
     }
 }
 
-fn hexs(h: &Hash) -> String {
+pub(crate) fn hexs(h: &Hash) -> String {
     hex::encode(&h[..12])
 }
 
@@ -202,7 +202,7 @@ fn check_runtime_history(world: &World, names: &BTreeMap<WorldlineId, String>) -
 
 /// Runs the model's store through the real runtime: non-fork lanes share SuperTicks (multi-worldline,
 /// alternating heads), forks continue on a real child frontier.
-fn build_store(spec: &StoreJ, trace: &mut Vec<Value>) -> Result<Built, String> {
+pub(crate) fn build_store(spec: &StoreJ, trace: &mut Vec<Value>) -> Result<Built, String> {
     let mut multi = 0u64;
     let u0 = c07::u0_state(&spec.u0);
     let mut world = World::new(&u0, 0x0100_0000)?;
@@ -328,17 +328,17 @@ pub const ALTER_VARIANTS: &[(&str, &str)] = &[
     ("outputs", "alter"), ("outputs", "drop"), ("outputs", "add"), ("atomw", "add"),
 ];
 
-fn flip(h: &mut Hash) {
+pub(crate) fn flip(h: &mut Hash) {
     h[0] ^= 0x55;
     h[31] ^= 0x01;
 }
 
-struct Ctx<'a> {
-    target: &'a Lane,
-    sibling: Option<&'a Lane>,
-    independent: Option<&'a Lane>,
+pub(crate) struct Ctx<'a> {
+    pub(crate) target: &'a Lane,
+    pub(crate) sibling: Option<&'a Lane>,
+    pub(crate) independent: Option<&'a Lane>,
     /// original materializations of the target per tick (pre-state of entry t = orig[t])
-    orig: &'a [WorldlineState],
+    pub(crate) orig: &'a [WorldlineState],
 }
 
 /// Digest of the patch as replay recomputes it.
@@ -354,7 +354,7 @@ fn is_slot_att(op: &WarpOp) -> bool {
 }
 
 /// Applies one single-field alteration; `Err` = not applicable to this entry.
-fn alter(ctx: &Ctx<'_>, e: &ProvenanceEntry, field: &str, variant: &str) -> Result<ProvenanceEntry, String> {
+pub(crate) fn alter(ctx: &Ctx<'_>, e: &ProvenanceEntry, field: &str, variant: &str) -> Result<ProvenanceEntry, String> {
     let mut e = e.clone();
     let t = e.worldline_tick.as_u64();
     let na = |w: &str| Err(format!("not applicable: {w}"));
@@ -504,7 +504,7 @@ fn alter(ctx: &Ctx<'_>, e: &ProvenanceEntry, field: &str, variant: &str) -> Resu
     Ok(e)
 }
 
-fn rewrite_for(mut e: ProvenanceEntry, from: WorldlineId, to: WorldlineId, claim_only: bool) -> ProvenanceEntry {
+pub(crate) fn rewrite_for(mut e: ProvenanceEntry, from: WorldlineId, to: WorldlineId, claim_only: bool) -> ProvenanceEntry {
     e.worldline_id = to;
     if !claim_only {
         if let Some(h) = e.head_key.as_mut() {
@@ -572,12 +572,12 @@ fn tampered_seq(ctx: &Ctx<'_>, c: &CaseJ) -> Result<Vec<ProvenanceEntry>, String
 
 // --------------------------------------------------------------------------- results
 
-fn dbg_name<T: std::fmt::Debug>(e: &T) -> String {
+pub(crate) fn dbg_name<T: std::fmt::Debug>(e: &T) -> String {
     let s = format!("{e:?}");
     s.split(|c: char| !c.is_alphanumeric()).next().unwrap_or("").to_string()
 }
 
-fn replay_err_name(e: &ReplayError) -> String {
+pub(crate) fn replay_err_name(e: &ReplayError) -> String {
     match e {
         ReplayError::History(h) => dbg_name(h),
         ReplayError::Apply { .. } => "ApplyError".into(),
@@ -586,7 +586,7 @@ fn replay_err_name(e: &ReplayError) -> String {
 }
 
 /// "same" | "diff_diag" | "diff_core:<aspects>"
-fn classify(got: &WorldlineState, orig: &WorldlineState) -> String {
+pub(crate) fn classify(got: &WorldlineState, orig: &WorldlineState) -> String {
     let mut core: Vec<&str> = Vec::new();
     let mut diag = false;
     if project_full(got.warp_state()) != project_full(orig.warp_state()) {
@@ -687,7 +687,7 @@ fn verify_ticks(svc: &ProvenanceService, w: WorldlineId, u0: &WorldlineState, or
     Verify { by_ep }
 }
 
-fn field_key(c: &CaseJ) -> String {
+pub(crate) fn field_key(c: &CaseJ) -> String {
     match c.kind.as_str() {
         "alter" => match c.field.as_str() {
             "w" => "entry.worldline_id".into(),
